@@ -35,7 +35,8 @@ def config(rng, tier):
         "width": rng.choice([1, 2, 2, 4]),
         "rate": rng.choice(RATES),
         # size class: mostly the property's <= 400 samples, sometimes past typical buffer/chunk thresholds
-        "nmax": rng.choice([0, 1, 2, 5, 16, 60, 400] * 6 + [1500, 5000, 5000, 70000]),
+        "nmax": rng.choice([0, 1, 2, 5, 16, 60, 400] * 6 + [1500, 4096, 5000, 8192, 16384, 70000]),
+        "exact_n": rng.random() < 0.5,
         "offgrid": rng.random() < 0.6,
         "steps": rng.randrange(1, 13 if deep else 7) if rng.random() < 0.85 else rng.randrange(7, 16),
         "patterns": rng.random() < 0.15,
@@ -282,6 +283,8 @@ def generate(run, rng):
 
     def mk_wav():
         n = rng.randrange(0, cfg["nmax"] + 1)
+        if cfg.get("exact_n") and cfg["nmax"] >= 1500:
+            n = cfg["nmax"]  # lengths that are exact multiples of typical block sizes
         s = _samples(rng, width, n, cfg.get("patterns", False))
         h = w.new_handle()
         run.do({"op": "Wav", "a": [{"$b": enc_samples(s, width).hex()}, params(width, rate, n)], "out": h})
@@ -296,7 +299,10 @@ def generate(run, rng):
             if t.is_integer() and rng.random() < 0.3:
                 t = int(t)  # callers pass whole seconds as ints
             return t, True
-        f = rng.choice([-1, 1]) * (rng.uniform(0.05, 0.45) if rng.random() < 0.85 else 0.5 - 1e-6)
+        # usually 5-45 % of a sample off; sometimes a hair away from a rounding tie (never ON it:
+        # the float error of t*rate is < 1e-11 for these sizes, so 1e-8 is a safe distance)
+        near_tie = 0.5 - rng.choice([1e-6, 1e-7, 1e-8] if n <= 20000 else [1e-6])
+        f = rng.choice([-1, 1]) * (rng.uniform(0.05, 0.45) if rng.random() < 0.85 else near_tie)
         if k == 0:
             f = abs(f)
         if k == n:
@@ -384,11 +390,18 @@ def generate(run, rng):
                 q = w.new_handle()
                 run.do({"op": "QueryWav", "a": [path], "out": q})
                 run.do({"op": "qwav.duration", "recv": q})
-                run.do({"op": "qwav.getFrames", "recv": q, "a": []})
-                for _ in range(rng.randrange(1, 6)):
+                prev_end = None
+                for _ in range(rng.randrange(1, 7)):
+                    k2 = rng.random()
+                    if k2 < 0.25:
+                        run.do({"op": "qwav.getFrames", "recv": q, "a": []})  # whole file, no arguments
+                        continue
                     a, b, g = span(n)
+                    if prev_end is not None and k2 < 0.6 and prev_end[0] <= b:
+                        a, g = prev_end[0], g and prev_end[1]  # read on from where the last read stopped
                     run.do({"op": rng.choice(["qwav.getSamples", "qwav.getSamples", "qwav.getFrames"]),
                             "recv": q, "a": [a, b], "grid": g})
+                    prev_end = (b, g)
                 run.do({"op": "env.drop", "a": [q]})
             else:
                 run.do({"op": "audio.getDuration", "a": [path]})
